@@ -476,6 +476,12 @@ class DiffXReader(object):
                 'The section length %s is too large' % length,
                 linenum=self._linenum)
 
+        if not content:
+            # There's nothing to split or decode, and no trailing newline.
+            raise DiffXParseError(
+                'Expected a newline after content',
+                linenum=self._linenum)
+
         # First, determine the line endings that we're going to be working
         # with.
         if line_endings:
